@@ -30,12 +30,21 @@ CONFIG = {
         "V.C07.witnesses_model_eq_library",
         "V.C07.repaired_witnesses",
         "V.C07.repaired_witnesses_r4",
+        "V.C07.contents_read_by_exact_names",
+        "V.C07.repaired_witnesses_x3",
         "V.C07.version_switches_eq_spec",
         "V.C07.spec_table_stable",
     ],
     "rule": "random room states (create / power_levels / join_rules / members / third-party invites with real ed25519 signatures, "
             "16 versions; power-levels auth events with junk / null / float levels, i.e. unreadable ones, in the incoherent half) x event "
-            "under test of every class (power-levels events incl. a JSON null in place of a level, of a map of levels or of one of its "
+            "under test of every class; the contents the rules read (create / power_levels / join_rules / third_party_invite, as auth events "
+            "and as the event under test) get, with a few per cent each, ONE member name in a variant spelling (Capitalised, UPPER, one "
+            "inner / the last letter raised, U+017F for an s, U+212A for a k) -- the exact member renamed, a variant of an absent member "
+            "added, or a variant with ANOTHER value placed before / after the exact member, the content NOT re-sorted afterwards -- and "
+            "(gen_authvariants.go, every tier) ~50 directed scenarios x 5 versions x 2 spellings in which the verdict hinges on that member "
+            "(a stranger joining under {Join_rule: public}, a level-0 member sending state under {State_default: 0} / {Users: {..}} beside "
+            "`users`, a join from another server under {m.federate: true, M.FEDERATE: false}, Additional_creators in v12, Creator alone, "
+            "ill-typed values under variant names); (power-levels events incl. a JSON null in place of a level, of a map of levels or of one of its "
             "values; version-12 creators changing any level), plus (gen_authspace.go) the named witnesses of VProps/C07.lean (D1-D17, F1-F5, "
             "and A1-A4: the round-4 defects) and the "
             "bounded-exhaustive membership rule space: version x (sender = target?) x sender's membership x target's previous "
@@ -64,13 +73,16 @@ CONFIG = {
         "is the independent predicate integerContent, a present but unreadable power-levels auth event refuses every event judged "
         "against the power levels (all but m.room.create / m.room.aliases), 5.5.1 has `knock` only from version 7; theorem "
         "repaired_witnesses_r4, corpus/C07/auth.ops",
-        "`present` for a key of the power-levels content is what encoding/json assigns to the struct field (GoJson.lookupField: "
-        "case-folded, last member wins)",
+        "`present` for a key of a content = the content has a member of EXACTLY that name (GoJson.lookupExact, the last member of that "
+        "name wins): second audit X3",
         "the members of an m.room.member content (membership, third_party_invite, join_authorised_via_users_server, mxid_mapping) are "
         "read by their EXACT names (GoJson.lookupExact, last member of that name wins) by the auth rules, StateNeededForAuth / "
         "StateNeededForProtoEvent, Membership(), state resolution's control-event test and the handshakes alike (/repo 'member content "
         "was read under case variants of its member names' + 'every reader of member content matches member names exactly'); the "
-        "members INSIDE third_party_invite / mxid_mapping, and the contents of create / power_levels / join_rules / third_party_invite "
-        "events, are still matched by encoding/json's folded comparison in code and model",
+        "contents of create / power_levels / join_rules / third_party_invite events likewise since the repair of X3 (the rules name "
+        "`join_rule`, `users`, `m.federate`, ...: V.C07.contents_read_by_exact_names, repaired_witnesses_x3; before it Allowed accepted a "
+        "stranger's join under {Join_rule: public} and merged `Users` into `users`); members of NESTED objects (inside third_party_invite / "
+        "mxid_mapping of a member content, predecessor, allow[], public_keys[]) are still matched by encoding/json's folded comparison "
+        "in code and model",
     ],
 }
